@@ -137,6 +137,11 @@ class IRelationLink(ABC, Generic[TDurationComponent]):
         :return: Copy of self with updated relation link.
         """
         raise InterfaceMethodException
+
+    @abstractmethod
+    def duplicate(self) -> 'IRelationLink':
+        """:return: New link instance (with unique identifier) that references the same node(s)."""
+        raise InterfaceMethodException
     # endregion
 
 
@@ -190,6 +195,13 @@ class RelationLink(IRelationLink[TDurationComponent], Generic[TDurationComponent
 
         return RelationLink(
             _reference_node=transferred_reference_node,
+            _relation_type=self._relation_type,
+        )
+
+    def duplicate(self) -> 'RelationLink':
+        """:return: New link instance (with unique identifier) that references the same node(s)."""
+        return RelationLink(
+            _reference_node=self._reference_node,
             _relation_type=self._relation_type,
         )
     # endregion
@@ -402,6 +414,14 @@ class MultiRelationLink(IRelationLink[TCircuitOperation], Generic[TCircuitOperat
 
         return MultiRelationLink(
             _reference_nodes=transferred_reference_operations,
+            _relation_to_group=self._relation_to_group,
+            _relation_type=self._relation_type,
+        )
+
+    def duplicate(self) -> 'MultiRelationLink':
+        """:return: New link instance (with unique identifier) that references the same node(s)."""
+        return MultiRelationLink(
+            _reference_nodes=list(self._reference_nodes),
             _relation_to_group=self._relation_to_group,
             _relation_type=self._relation_type,
         )
